@@ -10,7 +10,7 @@ PROPERTY = 'C13'
 LEVEL = 'fault_enumeration'
 RULE = ('every program of 1-3 activities, each [start delay 0/1/2] + 1-2 sequential transfers (volume 0/1/2/4, limit none/1/4) on a '
         'Pipe of throughput 1/2/3/inf or an UnboundedPipe; fault-free and with one deviation: cancel at every activation boundary of '
-        'every transferring activity, until-interrupt / forceful close swept over every queue position. Oracle: exact processor-sharing '
+        'every transferring activity, until-interrupt / forceful close swept over every queue position, abort of the whole scope (all running transfers closed together) at every time. Oracle: exact processor-sharing '
         'fluid model in rational arithmetic, fed with the observed start and abort times; every completed transfer must end at the '
         'model time (relative tolerance 1e-9); non-trivial = at least two transfers overlapped in time or a transfer was aborted '
         'while another one was active')
@@ -245,6 +245,13 @@ def explore_case(program, tier):
         for v in victims:
             one(F.until_attack(program, v, t, j, True), [], 'until')
             one(F.close_attack(program, v, t, j), [], 'close')
+    # the whole scope is aborted: every transfer still running is closed in one go
+    if len(victims) > 1:
+        for t, j in F.attack_positions(ctx0, 0):
+            if j <= 1:
+                one(F.abort_all_attack(program, t, j), [], 'closeall')
+        for t in (0.5, 1.5):
+            one(F.abort_all_attack(program, t, 0), [], 'closeall-frac')
     # interruption at times between the integer grid points
     for v in victims:
         for t in (0.5, 1.5, 2.25):
